@@ -74,6 +74,7 @@ func run(c *vk.Ctx) {
 		defer s.Close()
 		servers = append(servers, namedSrv{cfg.Name(), s})
 	}
+	wideCandidates(c, base)
 	modes := []drive.Mode{"default", "fast", "mixed:1", ""}
 	if !c.Quick() {
 		modes = append(modes, "mixed:2", "mixed:3")
